@@ -76,6 +76,16 @@ def offered(t, kinds, maxdepth=3):
     return out
 
 
+def interval_arg(p):
+    """the interval as the caller spells it: a number, a duration string, or a numpy scalar"""
+    if "i_str" in p:
+        return p["i_str"]
+    if "i_np" in p:
+        import numpy as np
+        return getattr(np, p["i_np"])(p["i"])
+    return p["i"]
+
+
 def idx_key(t):
     """a key that is not callable (documented: then it is an index into the element): position 0
     of a tuple-typed element whose first component is a plain element"""
@@ -429,9 +439,9 @@ def build(spec, log, asynchronous, consumer_modes=None, faults=None, wrap_fn=Non
         elif k == "buffer":
             s = ups[0].buffer(p["n"])
         elif k == "delay":
-            s = ups[0].delay(p.get("i_str", p["i"]))
+            s = ups[0].delay(interval_arg(p))
         elif k == "rate_limit":
-            s = ups[0].rate_limit(p.get("i_str", p["i"]))
+            s = ups[0].rate_limit(interval_arg(p))
         elif k == "map_async":
             j = Jobs(log, i, FUNCS[p["f"]], fail_at=faults.get(i, ()))
             b.jobs[i] = j
